@@ -32,6 +32,14 @@ PER_POINT_KEYS = ('weights', 'mask', 'alpha', 'signal')
 SORT_FUNCS = ('_sort_array', '_sort_array2d')
 PASSTHROUGH_FUNCS = ('_check_optional_array',)
 
+# __init__, _register, _return_results are modelled by wrapper / wrapper2 (C02/Model.v), _override_x and the
+# skip_sorting methods below by C02/OptModel.v; each model is tied to the code by an exact-integer correspondence
+# (harness/c02.py).  Only what has no model is pinned as text.
+PINNED_WRAPPER_FUNCS = ()   # _get_function: get_function_x / axis_values models (C02/OptModel.v)
+PINNED_METHODS = ('custom_bc',)
+# collab_pls has no explicit site: it only passes per-point arrays between sub-fitters in the supplied order
+MODELLED_SKIP_METHODS = ('collab_pls', 'optimize_extended_range', 'adaptive_minmax', 'individual_axes')
+
 I0 = ('I', '')
 C0 = ('C', '')
 U0 = ('U', '')
@@ -584,7 +592,7 @@ def gen_orderflow(repo):
                     raise TranslateError('%s/%s does not return (y, weight_array, ...)' % (dim, name))
             setup_adj[dim][name] = {1: 'S', 0: '', -1: 'U'}[adj]
             setup_rows.append('  (%s, %s, %d%%Z)' % (coq_str(dim), coq_str(name), adj))
-        for name in ('__init__', '_register', '_return_results', '_override_x', '_get_function'):
+        for name in PINNED_WRAPPER_FUNCS:
             fn = find_function(tree, cls, name)
             for tgt, text in sites_of(fn):
                 site_rows.append('  (%s, %s, %s, %s)' % (coq_str(dim), coq_str(name), coq_str(tgt), coq_str(text)))
@@ -602,10 +610,14 @@ def gen_orderflow(repo):
                 sort_keys, skip = info
                 methods.append('  (%s, %s, %s, %s)' % (coq_str(dim), coq_str(fn.name), 'true' if skip else 'false',
                                                        '[' + '; '.join(coq_str(k) for k in sort_keys) + ']'))
-                if skip or fn.name == 'custom_bc':
-                    for tgt, text in sites_of(fn):
-                        site_rows.append('  (%s, %s, %s, %s)' % (coq_str(dim), coq_str(fn.name), coq_str(tgt),
-                                                                 coq_str(text)))
+                if skip or fn.name in PINNED_METHODS:
+                    if fn.name in PINNED_METHODS:
+                        for tgt, text in sites_of(fn):
+                            site_rows.append('  (%s, %s, %s, %s)' % (coq_str(dim), coq_str(fn.name), coq_str(tgt),
+                                                                     coq_str(text)))
+                    elif fn.name not in MODELLED_SKIP_METHODS:
+                        raise TranslateError('%s/%s skips the sorting of the wrapper but has no Gallina model '
+                                             '(C02/OptModel.v)' % (dim, fn.name))
                     continue
                 for var, src, ops, sink in analyse_method(dim, fn, sort_keys, setups[dim], setup_adj[dim]):
                     rows.append('  {| r_dim := %s; r_method := %s; r_var := %s; r_src := %s; r_ops := %s; r_sink := %s |}'
